@@ -94,3 +94,21 @@ also("C20", "loadKeyFromDisk returns success only on paths on which a LoadKeyDef
 also("C13", "Name sets are recognised by what they contain (the key list of a map, built in place or by a key-list helper) rather than by the helper's name (R-C13-5).")
 also("C03", "getEsc refuses an empty rest, a bare '-' and a bare ']' inside a character class (R-C17-10, shared with C17); the path sets are recognised structurally (key lists, optionally cleaned by path.Clean).")
 also("C17", "getEsc refuses an empty rest, a bare '-' and a bare ']' inside a character class, which matchChunk's range loop relies on (R-C17-10).")
+
+# round 8 of the seeded changes ("looks like a behaviour-preserving refactoring")
+also("C01", "The guard, payload extraction and expiry check may sit in one unexported head helper shared by both entry points: it is accepted only if every success return of the helper lies under the guard's nil-error edge and nothing inside it consumes the Metadata before the guard; access-path rules see through helpers that hand back one fixed view of their arguments (transparent helpers).")
+also("C02", "Evaluating a step's certificate constraints and keys writes nothing through the layout (shared R-C10-2; in-place helpers of package slices / maps count as writes).")
+also("C03", "Inside the rounds no path set or queue is edited in place (Set.Add / Remove, delete, clear, maps.DeleteFunc): the queue is the round's path set itself and feeds the other round's classification (R-C03-5); the rounds table is recognised as map or struct records with roles by type; an escaped metacharacter is a literal (shared R-C17-11).")
+also("C04", "Dump replaces the file: os.WriteFile / os.Create, or os.OpenFile whose constant flags contain O_TRUNC (shared R-C12-7).")
+also("C06", "The expiry check inside a head helper counts only if every success return of the helper lies under its nil-error edge (an overwritten error is reported).")
+also("C07", "Evaluating a certificate constraint does not consume it (shared R-C10-2).")
+also("C08", "A sublayout enters the verified map only under the authorization guards of the threshold check (shared R-C02-1).")
+also("C10", "A3.6: an insertion into another map under a key computed from the current key is order dependent unless the transform is reviewed as injective or the stored value does not depend on the element.")
+also("C11", "Envelope.Sign signs DecodeB64Payload() of the receiver's current envelope, directly or through a helper that only forwards to it (shared R-C04-1): no remembered copy of the payload bytes.")
+also("C12", "Dump replaces the file (R-C12-7); the wrapper's two parts are found by exact member name in a map[string]*json.RawMessage, not through struct tags, in the loader or in one shared parsing helper (R-C12-1).")
+also("C14", "Nothing below RunCommand re-encodes the captured output (no encoding/*, UTF-8 validation, quoting, trimming or case helpers): stdout / stderr are the bytes written (R-C14-8).")
+also("C15", "No module function below the entry points calls itself from inside a loop, except the reviewed recursions bounded by the directory tree (R-C15-7): exponential backtracking needs exactly that shape.")
+also("C16", "No function literal that is returned or stored writes a variable it captured (R-C16-6).")
+also("C17", "No comparison with '[' or '?' is reachable, within one iteration of matchChunk, from the branch that consumed a backslash (R-C17-11).")
+also("C19", "The key-id preimage may be a struct literal: its JSON view has exactly the four members, none omitted when empty, keyval sets only public (R-C19-1); no returned closure writes captured state (shared R-C16-6).")
+also("C20", "A key-loading helper of the sign command fails only with the loader's own error (R-C20-4): sign --verify accepts whatever key LoadKeyDefaults accepts.")
